@@ -1,0 +1,124 @@
+//go:build verif
+
+// Contracts for package limiter, read by /verif's gcv (comment-only file).
+package limiter
+
+// ---------------------------------------------------------------------------------------------
+// Interface contracts (abstract models): a strategy has a busy count and a limit; a token is
+// released at most once by its owner; a limiter hands out listeners; a listener is completed once.
+//@ ghost core.Strategy.busy int
+//@ ghost core.Strategy.limit int
+//@ func core.Strategy.TryAcquire params ctx
+//@   ensures token: ok ==> token != nil
+//@   ensures grant: ok ==> this.busy == old(this.busy) + 1
+//@   ensures refuse: !ok ==> this.busy == old(this.busy)
+//@   ensures limit_kept: this.limit == old(this.limit)
+//@   assigns this.busy
+//@ func core.Strategy.SetLimit params limit
+//@   ensures floor: this.limit == max(1, limit) && this.busy == old(this.busy)
+//@   assigns this.limit
+//@ func core.StrategyToken.Release
+//@   assigns nothing
+//@ func core.Limiter.Acquire params ctx
+//@   ensures iff: ok <==> listener != nil
+//@ func core.Listener.OnSuccess
+//@ func core.Listener.OnIgnore
+//@ func core.Listener.OnDropped
+
+// ---------------------------------------------------------------------------------------------
+// DefaultLimiter / DefaultListener
+//@ type DefaultLimiter
+//@   guarded mu: sample, nextUpdateTime
+//@   immutable: limit, strategy, minWindowTime, maxWindowTime, windowSize, minRTTThreshold, logger, registry, inFlight
+//@   atomiccell: inFlight
+//@   inv[C09] window: this.sample != nil && inv(this.sample)
+//@   inv deps: this.limit != nil && this.strategy != nil && this.inFlight != nil
+//@   inv[C09] cfg: 1 <= this.minWindowTime && this.minWindowTime <= this.maxWindowTime && this.maxWindowTime <= 1<<61 && 10 <= this.windowSize
+
+//@ type DefaultListener
+//@   immutable: currentMaxInFlight, inFlight, token, startTime, minRTTThreshold, limiter, nextUpdateTime
+
+//@ func NewDefaultLimiter
+//@   requires cfg: maxWindowTime <= 1<<61
+//@   ensures[C05] rejects: (limit == nil || strategy == nil || minWindowTime <= 0 || maxWindowTime <= 0 || maxWindowTime < minWindowTime || windowSize < 10) ==> ret0 == nil && ret1 != nil
+//@   ensures[C05] enforced_at_construction: ret0 != nil ==> ncalls("core.Strategy.SetLimit") == 1 && callrecv("core.Strategy.SetLimit", 0) == strategy && callarg("core.Strategy.SetLimit", 0, 0) == limit.est && strategy.limit == max(1, limit.est)
+//@   ensures[C05] nothing_enforced_on_error: ret0 == nil ==> ncalls("core.Strategy.SetLimit") == 0
+//@   establishes[C09] ret0 != nil ==> ret0
+//@   ensures[C01,C02,C09] fields: ret0 != nil ==> ret1 == nil && ret0.limit == limit && ret0.strategy == strategy && ret0.minWindowTime == minWindowTime && ret0.maxWindowTime == maxWindowTime && ret0.minRTTThreshold == minRTTThreshold && ret0.windowSize == windowSize && fresh(ret0.inFlight) && *ret0.inFlight == 0 && ret0.nextUpdateTime == 0 && ret0.sample.sampleCount == 0 && ret0.sample.didDrop == false
+
+//@ func (*DefaultLimiter).Acquire
+//@   requires gauge_no_overflow: 0 <= *l.inFlight && *l.inFlight < 1<<62
+//@   maintains[C01,C02] l
+//@   ensures[C02] listener_iff_ok: ret1 <==> ret0 != nil
+//@   ensures[C01] one_gate_decision: ncalls("core.Strategy.TryAcquire") == 1 && callrecv("core.Strategy.TryAcquire", 0) == l.strategy && callarg("core.Strategy.TryAcquire", 0, 0) == ctx && calledUnder("core.Strategy.TryAcquire", 0, l.mu)
+//@   ensures[C01] follows_the_gate: ret1 <==> (callres("core.Strategy.TryAcquire", 0, 1) && callres("core.Strategy.TryAcquire", 0, 0) != nil)
+//@   ensures[C01,C02] strategy_delta: ret1 ==> l.strategy.busy == old(l.strategy.busy) + 1
+//@   ensures[C02] refused_holds_nothing: !ret1 && !callres("core.Strategy.TryAcquire", 0, 1) ==> l.strategy.busy == old(l.strategy.busy) && *l.inFlight == old(*l.inFlight)
+//@   ensures[C02,C20] gauge: ret1 ==> *l.inFlight == old(*l.inFlight) + 1 && ncalls("atomic.Add") == 1
+//@   ensures[C02,C09] listener_fields: ret1 ==> dyntype(ret0, "*limiter.DefaultListener") && fresh(ref(ret0)) && dl(ret0).token == callres("core.Strategy.TryAcquire", 0, 0) && dl(ret0).inFlight == l.inFlight && dl(ret0).limiter == l && dl(ret0).currentMaxInFlight == *l.inFlight && dl(ret0).minRTTThreshold == l.minRTTThreshold && dl(ret0).nextUpdateTime == l.nextUpdateTime && dl(ret0).startTime == callres("time.Now", 0, 0)
+//@   ensures[C09] window_untouched: l.sample == old(l.sample) && l.nextUpdateTime == old(l.nextUpdateTime)
+//@   owns[C17]
+
+//@ define dl(x core.Listener) *limiter.DefaultListener = as(x, "*limiter.DefaultListener")
+
+//@ func (*DefaultLimiter).isWindowReady
+//@   ensures[C09] rule: result <==> (sample.minRTT < MaxInt64 && sample.sampleCount > l.windowSize)
+//@   assigns nothing
+
+//@ func (*DefaultLimiter).EstimatedLimit
+//@   ensures[C05] value: result == l.limit.est
+//@   owns[C17]
+
+//@ define winReady(l *limiter.DefaultLimiter, w measurements.ImmutableSampleWindow) bool = w.minRTT < MaxInt64 && w.sampleCount > l.windowSize
+
+//@ func (*DefaultListener).updateLimit
+//@   requires objs: l.limiter != nil && inv(l.limiter)
+//@   requires win: current.minRTT >= 1 && 0 <= endTime && endTime <= 1<<62 && current.maxInFlight >= 0
+//@   ensures[C09] update_iff: ncalls("core.Limit.OnSample") == ite(endTime > l.nextUpdateTime && endTime > old(l.limiter.nextUpdateTime) && winReady(l.limiter, current), 1, 0)
+//@   ensures[C09] algorithm_sees_window: ncalls("core.Limit.OnSample") == 1 ==> callrecv("core.Limit.OnSample", 0) == l.limiter.limit && callarg("core.Limit.OnSample", 0, 0) == 0 && callarg("core.Limit.OnSample", 0, 1) == current.minRTT && callarg("core.Limit.OnSample", 0, 2) == current.maxInFlight && callarg("core.Limit.OnSample", 0, 3) == current.didDrop
+//@   ensures[C05] enforcement_follows_estimate: ncalls("core.Limit.OnSample") == 1 ==> ncalls("core.Strategy.SetLimit") == 1 && callrecv("core.Strategy.SetLimit", 0) == l.limiter.strategy && callarg("core.Strategy.SetLimit", 0, 0) == l.limiter.limit.est && l.limiter.strategy.limit == max(1, l.limiter.limit.est) && callpos("core.Limit.OnSample", 0) < callpos("core.Limit.EstimatedLimit", 0) && callpos("core.Limit.EstimatedLimit", 0) < callpos("core.Strategy.SetLimit", 0)
+//@   ensures[C01,C05] one_critical_section: ncalls("core.Limit.OnSample") == 1 ==> calledUnder("core.Limit.OnSample", 0, l.limiter.mu) && calledUnder("core.Limit.EstimatedLimit", 0, l.limiter.mu) && calledUnder("core.Strategy.SetLimit", 0, l.limiter.mu)
+//@   ensures[C05] no_update_no_enforcement: ncalls("core.Limit.OnSample") == 0 ==> ncalls("core.Strategy.SetLimit") == 0 && l.limiter.strategy.limit == old(l.limiter.strategy.limit)
+//@   ensures[C09] window_restarts: ncalls("core.Limit.OnSample") == 1 ==> fresh(l.limiter.sample) && l.limiter.sample.sampleCount == 0 && l.limiter.sample.sum == 0 && l.limiter.sample.maxInFlight == 0 && l.limiter.sample.didDrop == false && l.limiter.sample.minRTT == MaxInt64 && l.limiter.nextUpdateTime == endTime + min(max(wrap64(current.minRTT * 2), l.limiter.minWindowTime), l.limiter.maxWindowTime) && l.limiter.nextUpdateTime > endTime
+//@   ensures[C09] otherwise_untouched: ncalls("core.Limit.OnSample") == 0 ==> l.limiter.sample == old(l.limiter.sample) && l.limiter.nextUpdateTime == old(l.limiter.nextUpdateTime)
+//@   ensures[C01,C02] busy_untouched: l.limiter.strategy.busy == old(l.limiter.strategy.busy)
+//@   owns[C17]
+
+//@ func (*DefaultListener).OnIgnore
+//@   requires objs: l.inFlight != nil && l.token != nil
+//@   requires held_token: *l.inFlight >= 1
+//@   ensures[C02] gauge_minus_one: *l.inFlight == old(*l.inFlight) - 1 && ncalls("atomic.Add") == 1
+//@   ensures[C02] token_released_once: ncallsOn(l.token, "core.StrategyToken.Release") == 1 && ncalls("core.StrategyToken.Release") == 1
+//@   ensures[C09] leaves_no_trace: l.limiter.sample == old(l.limiter.sample) && l.limiter.nextUpdateTime == old(l.limiter.nextUpdateTime) && ncalls("core.Limit.OnSample") == 0 && ncalls("core.Strategy.SetLimit") == 0
+//@   owns[C17]
+
+//@ func (*DefaultListener).OnSuccess
+//@   inlines (*DefaultListener).updateLimit
+//@   nohavoc
+//@   requires objs: l.inFlight != nil && l.token != nil && l.limiter != nil && inv(l.limiter) && l.limiter.inFlight == l.inFlight
+//@   requires clock: 0 <= l.startTime && l.startTime <= 1<<60 && 1 <= l.minRTTThreshold && 0 <= l.currentMaxInFlight && l.currentMaxInFlight < 1<<31
+//@   requires held_token: *l.inFlight >= 1
+//@   requires counters_no_overflow: l.limiter.sample.sum <= 1<<61 && l.limiter.sample.sampleCount <= 1<<40
+//@   bind endTime = call 1 time.Now
+//@   ensures[C02] gauge_minus_one: *l.inFlight == old(*l.inFlight) - 1 && ncalls("atomic.Add") == 1
+//@   ensures[C02] token_released_once: ncallsOn(l.token, "core.StrategyToken.Release") == 1 && ncalls("core.StrategyToken.Release") == 1
+//@   ensures[C09] fast_leaves_no_trace: endTime - l.startTime < l.minRTTThreshold ==> l.limiter.sample == old(l.limiter.sample) && l.limiter.nextUpdateTime == old(l.limiter.nextUpdateTime) && ncalls("core.Limit.OnSample") == 0
+//@   ensures[C09] folds_sample: endTime - l.startTime >= l.minRTTThreshold && ncalls("core.Limit.OnSample") == 0 ==> l.limiter.sample.minRTT == min(old(l.limiter.sample.minRTT), endTime - l.startTime) && l.limiter.sample.sum == old(l.limiter.sample.sum) + (endTime - l.startTime) && l.limiter.sample.sampleCount == old(l.limiter.sample.sampleCount) + 1 && l.limiter.sample.maxInFlight == max(old(l.limiter.sample.maxInFlight), int(l.currentMaxInFlight)) && l.limiter.sample.didDrop == old(l.limiter.sample.didDrop)
+//@   ensures[C09] update_iff: endTime - l.startTime >= l.minRTTThreshold ==> (ncalls("core.Limit.OnSample") == 1 <==> (endTime > l.nextUpdateTime && endTime > old(l.limiter.nextUpdateTime) && min(old(l.limiter.sample.minRTT), endTime - l.startTime) < MaxInt64 && old(l.limiter.sample.sampleCount) + 1 > l.limiter.windowSize))
+//@   ensures[C09] algorithm_sees_window: ncalls("core.Limit.OnSample") == 1 ==> callarg("core.Limit.OnSample", 0, 1) == min(old(l.limiter.sample.minRTT), endTime - l.startTime) && callarg("core.Limit.OnSample", 0, 2) == max(old(l.limiter.sample.maxInFlight), int(l.currentMaxInFlight)) && callarg("core.Limit.OnSample", 0, 3) == old(l.limiter.sample.didDrop)
+//@   ensures[C05] enforcement_follows_estimate: ncalls("core.Limit.OnSample") == 1 ==> ncalls("core.Strategy.SetLimit") == 1 && callarg("core.Strategy.SetLimit", 0, 0) == l.limiter.limit.est
+//@   owns[C17]
+
+//@ func (*DefaultListener).OnDropped
+//@   inlines (*DefaultListener).updateLimit
+//@   nohavoc
+//@   requires objs: l.inFlight != nil && l.token != nil && l.limiter != nil && inv(l.limiter) && l.limiter.inFlight == l.inFlight
+//@   requires clock: 0 <= l.currentMaxInFlight && l.currentMaxInFlight < 1<<31
+//@   requires held_token: *l.inFlight >= 1
+//@   requires counters_no_overflow: l.limiter.sample.sum <= 1<<61 && l.limiter.sample.sampleCount <= 1<<40
+//@   ensures[C02] gauge_minus_one: *l.inFlight == old(*l.inFlight) - 1 && ncalls("atomic.Add") == 1
+//@   ensures[C02] token_released_once: ncallsOn(l.token, "core.StrategyToken.Release") == 1 && ncalls("core.StrategyToken.Release") == 1
+//@   ensures[C09] folds_drop: ncalls("core.Limit.OnSample") == 0 ==> l.limiter.sample.minRTT == old(l.limiter.sample.minRTT) && l.limiter.sample.sum == old(l.limiter.sample.sum) && l.limiter.sample.sampleCount == old(l.limiter.sample.sampleCount) && l.limiter.sample.maxInFlight == max(old(l.limiter.sample.maxInFlight), int(l.currentMaxInFlight)) && l.limiter.sample.didDrop == true
+//@   ensures[C09] algorithm_sees_drop: ncalls("core.Limit.OnSample") == 1 ==> callarg("core.Limit.OnSample", 0, 1) == old(l.limiter.sample.minRTT) && callarg("core.Limit.OnSample", 0, 3) == true
+//@   ensures[C05] enforcement_follows_estimate: ncalls("core.Limit.OnSample") == 1 ==> ncalls("core.Strategy.SetLimit") == 1 && callarg("core.Strategy.SetLimit", 0, 0) == l.limiter.limit.est
+//@   owns[C17]
